@@ -16,8 +16,8 @@ R == INSTANCE Req
 Targets == {"fn", "mod", "trait", "impl"}
 Macros  == {"entrait", "entrait_export"}
 \* well-formed option tokens per key (each key once per list)
-WF == [ no_deps |-> {Bare("no_deps"), Eq("no_deps", "true")},
-        export  |-> {Bare("export"), Eq("export", "true")},
+WF == [ no_deps |-> {Bare("no_deps"), Eq("no_deps", "true"), Eq("no_deps", "false")},
+        export  |-> {Bare("export"), Eq("export", "true"), Eq("export", "false")},
         unimock |-> {Bare("unimock"), Eq("unimock", "true"), Eq("unimock", "false")},
         mockall |-> {Bare("mockall"), Eq("mockall", "false")},
         mock_api |-> {Eq("mock_api", "Mk")},
@@ -55,7 +55,13 @@ ExportVariant(b) == IF b.macro = "entrait_export" /\ ~HasKey(b.attr.opts, "expor
 UnimockFeature(b) == IF b.feature /\ ~HasKey(b.attr.opts, "unimock") /\ b.target \in {"fn", "mod", "trait"}
                      THEN { [rel |-> "unimock-feature", left |-> b,
                              right |-> [SetOpts(b, Append(b.attr.opts, Bare("unimock"))) EXCEPT !.feature = FALSE]] } ELSE {}
-PairsOf(b) == BareTrue(b) \cup FalseOmitted(b) \cup Order(b) \cup ExportVariant(b) \cup UnimockFeature(b)
+\* "unless args sets it explicitly": with an explicit value (true OR false) the variant / the feature changes nothing
+ExplicitOverVariant(b) ==
+  (IF b.macro = "entrait_export" /\ HasKey(b.attr.opts, "export") /\ b.target \in {"fn", "mod"}
+   THEN { [rel |-> "explicit-export", left |-> b, right |-> [b EXCEPT !.macro = "entrait"]] } ELSE {})
+  \cup (IF b.feature /\ HasKey(b.attr.opts, "unimock") /\ b.target \in {"fn", "mod", "trait"}
+        THEN { [rel |-> "explicit-unimock", left |-> b, right |-> [b EXCEPT !.feature = FALSE]] } ELSE {})
+PairsOf(b) == BareTrue(b) \cup FalseOmitted(b) \cup Order(b) \cup ExportVariant(b) \cup UnimockFeature(b) \cup ExplicitOverVariant(b)
 
 FE(b) == FrontEnd(b.target, b.attr, b.macro, b.feature)
 
